@@ -22,6 +22,11 @@ pub enum LKind {
     Cropped,
     /// cropped view inside a cropped view inside the parent
     Nested,
+    /// (sources only) a CroppedImageMut used through its read-only interface
+    CroppedMutAsSrc,
+    /// (typed sources only) a user-defined ImageView whose rows are longer than `width()` - padded scan lines,
+    /// which the trait's contract allows ("equal or greater than the image width")
+    PaddedRows,
 }
 
 #[derive(Clone, Debug, PartialEq)]
@@ -38,6 +43,9 @@ pub struct Layout {
     pub spare: usize,
     /// for Nested: the outer crop rectangle (l1,t1,w1,h1) in parent coordinates
     pub outer: (u32, u32, u32, u32),
+    /// heap placement only: start the parent this many bytes (rounded down to the pixel alignment) past an
+    /// 8-byte boundary, so that rows are aligned for the pixel type but not for wider vector types
+    pub align_off: usize,
 }
 
 impl Layout {
@@ -52,6 +60,7 @@ impl Layout {
             h,
             spare: 0,
             outer: (0, 0, w, h),
+            align_off: 0,
         }
     }
 
@@ -66,7 +75,11 @@ impl Layout {
                 lay.ph = h + t.range(0, 3);
                 lay.spare = if lay.ph == h { t.range(1, 17) as usize } else { t.range(0, 9) as usize };
             }
-            LKind::Cropped => {
+            LKind::PaddedRows => {
+                lay.pw = w + t.range(0, 6);
+                lay.ph = h;
+            }
+            LKind::Cropped | LKind::CroppedMutAsSrc => {
                 let ml = t.range(0, 5);
                 let mr = t.range(0, 5);
                 let mt = t.range(0, 4);
@@ -95,15 +108,27 @@ impl Layout {
                 lay.t = mt + it;
             }
         }
+        lay.align_off = [0usize, 0, 0, 0, 4, 8, 12, 2, 6, 1, 3][t.below(11) as usize];
         lay
     }
 
     pub fn desc(&self) -> String {
+        let base = self.desc_kind();
+        if self.align_off != 0 {
+            format!("{} @+{}", base, self.align_off)
+        } else {
+            base
+        }
+    }
+
+    fn desc_kind(&self) -> String {
         match self.kind {
             LKind::Plain => "plain".to_string(),
             LKind::Owned => "owned".to_string(),
             LKind::Oversized => format!("oversized(+{} rows, +{} bytes)", self.ph - self.h, self.spare),
             LKind::Cropped => format!("cropped(at {},{} in {}x{})", self.l, self.t, self.pw, self.ph),
+            LKind::CroppedMutAsSrc => format!("CroppedImageMut-as-source(at {},{} in {}x{})", self.l, self.t, self.pw, self.ph),
+            LKind::PaddedRows => format!("user-defined view with rows of {} pixels for width {}", self.pw, self.w),
             LKind::Nested => format!(
                 "nested(at {},{} via outer {:?} in {}x{})",
                 self.l, self.t, self.outer, self.pw, self.ph
@@ -131,7 +156,12 @@ impl Layout {
         } else {
             placement
         };
-        let mut b = Buf::placed(self.parent_len(ps), placement);
+        let mut b = if placement == Placement::Heap && self.align_off != 0 {
+            let a = (ps & ps.wrapping_neg()).min(4).max(1);
+            Buf::with_offset(self.parent_len(ps), self.align_off / a * a)
+        } else {
+            Buf::placed(self.parent_len(ps), placement)
+        };
         {
             let bytes = b.bytes_mut();
             for (i, x) in bytes.iter_mut().enumerate() {
@@ -196,7 +226,14 @@ impl Layout {
     }
 }
 
-pub const DYN_SRC_KINDS: [LKind; 5] = [LKind::Plain, LKind::Owned, LKind::Oversized, LKind::Cropped, LKind::Nested];
+pub const DYN_SRC_KINDS: [LKind; 6] = [
+    LKind::Plain,
+    LKind::Owned,
+    LKind::Oversized,
+    LKind::Cropped,
+    LKind::Nested,
+    LKind::CroppedMutAsSrc,
+];
 pub const DYN_DST_KINDS: [LKind; 5] = [LKind::Plain, LKind::Owned, LKind::Oversized, LKind::Cropped, LKind::Nested];
 
 // ------------------------------------------------------------------ dynamic containers
@@ -230,9 +267,16 @@ pub fn with_src_dyn<O: SrcOp>(lay: &Layout, pt: PixelType, parent: &[u8], op: O)
                 Ok(op.run(&s))
             }
         },
-        LKind::Cropped => {
+        LKind::Cropped | LKind::PaddedRows => {
             let p = ImageRef::new(lay.pw, lay.ph, parent, pt).map_err(e2s)?;
             let c = CroppedImage::new(&p, lay.l, lay.t, lay.w, lay.h).map_err(e2s)?;
+            Ok(op.run(&c))
+        }
+        LKind::CroppedMutAsSrc => {
+            // needs a mutable parent: work on an aligned copy
+            let mut copy = Buf::from_bytes(parent);
+            let mut p = Image::from_slice_u8(lay.pw, lay.ph, copy.bytes_mut(), pt).map_err(e2s)?;
+            let c = CroppedImageMut::new(&mut p, lay.l, lay.t, lay.w, lay.h).map_err(e2s)?;
             Ok(op.run(&c))
         }
         LKind::Nested => {
@@ -248,7 +292,7 @@ pub fn with_src_dyn<O: SrcOp>(lay: &Layout, pt: PixelType, parent: &[u8], op: O)
 /// Exposes the image of `lay` inside `parent` as a dynamic destination container.
 pub fn with_dst_dyn<O: DstOp>(lay: &Layout, pt: PixelType, parent: &mut [u8], op: O) -> Result<O::Out, String> {
     match lay.kind {
-        LKind::Plain | LKind::Oversized => {
+        LKind::Plain | LKind::Oversized | LKind::CroppedMutAsSrc => {
             let mut d = Image::from_slice_u8(lay.w, lay.h, parent, pt).map_err(e2s)?;
             Ok(op.run(&mut d))
         }
@@ -264,7 +308,7 @@ pub fn with_dst_dyn<O: DstOp>(lay: &Layout, pt: PixelType, parent: &mut [u8], op
                 Ok(op.run(&mut d))
             }
         },
-        LKind::Cropped => {
+        LKind::Cropped | LKind::PaddedRows => {
             let mut p = Image::from_slice_u8(lay.pw, lay.ph, parent, pt).map_err(e2s)?;
             let mut c = CroppedImageMut::new(&mut p, lay.l, lay.t, lay.w, lay.h).map_err(e2s)?;
             Ok(op.run(&mut c))
@@ -280,6 +324,31 @@ pub fn with_dst_dyn<O: DstOp>(lay: &Layout, pt: PixelType, parent: &mut [u8], op
 }
 
 // ------------------------------------------------------------------ typed containers
+
+/// A minimal user-defined view: row y = pixels[y*stride .. (y+1)*stride], i.e. longer than `width`.
+pub struct PaddedView<'a, P> {
+    pub width: u32,
+    pub height: u32,
+    pub stride: usize,
+    pub pixels: &'a [P],
+}
+
+unsafe impl<'a, P: PixelTrait> ImageView for PaddedView<'a, P> {
+    type Pixel = P;
+    fn width(&self) -> u32 {
+        self.width
+    }
+    fn height(&self) -> u32 {
+        self.height
+    }
+    fn iter_rows(&self, start_row: u32) -> impl Iterator<Item = &[P]> {
+        let stride = self.stride.max(1);
+        self.pixels
+            .chunks_exact(stride)
+            .take(if self.stride == 0 { 0 } else { self.height as usize })
+            .skip(start_row as usize)
+    }
+}
 
 pub trait TSrcOp<P: PixelTrait> {
     type Out;
@@ -329,6 +398,21 @@ pub fn with_src_typed<P: PixelTrait, O: TSrcOp<P>>(
             let s = TypedImage::<P>::from_pixels(lay.w, lay.h, px).map_err(e2s)?;
             Ok(op.run(&s))
         }
+        LKind::PaddedRows => {
+            let v = PaddedView::<P> {
+                width: lay.w,
+                height: lay.h,
+                stride: lay.pw as usize,
+                pixels: as_pixels::<P>(parent)?,
+            };
+            Ok(op.run(&v))
+        }
+        LKind::CroppedMutAsSrc => {
+            let mut copy = Buf::from_bytes(parent);
+            let mut p = TypedImage::<P>::from_buffer(lay.pw, lay.ph, copy.bytes_mut()).map_err(e2s)?;
+            let c = TypedCroppedImageMut::from_ref(&mut p, lay.l, lay.t, lay.w, lay.h).map_err(e2s)?;
+            Ok(op.run(&c))
+        }
         LKind::Cropped => {
             let p = TypedImageRef::<P>::from_buffer(lay.pw, lay.ph, parent).map_err(e2s)?;
             if variant % 2 == 0 {
@@ -361,7 +445,7 @@ pub fn with_dst_typed<P: PixelTrait, O: TDstOp<P>>(
     op: O,
 ) -> Result<O::Out, String> {
     match lay.kind {
-        LKind::Plain | LKind::Oversized => {
+        LKind::Plain | LKind::Oversized | LKind::CroppedMutAsSrc => {
             if variant % 2 == 0 {
                 let mut d = TypedImage::<P>::from_buffer(lay.w, lay.h, parent).map_err(e2s)?;
                 Ok(op.run(&mut d))
@@ -379,7 +463,7 @@ pub fn with_dst_typed<P: PixelTrait, O: TDstOp<P>>(
             dstp[..out.len()].copy_from_slice(out);
             Ok(r)
         }
-        LKind::Cropped => {
+        LKind::Cropped | LKind::PaddedRows => {
             let mut p = TypedImage::<P>::from_buffer(lay.pw, lay.ph, parent).map_err(e2s)?;
             if variant % 2 == 0 {
                 let mut c = TypedCroppedImageMut::from_ref(&mut p, lay.l, lay.t, lay.w, lay.h).map_err(e2s)?;
